@@ -24,7 +24,7 @@
 (* harness replays, comparing every answer with a fresh object that was given   *)
 (* the same configuration and content and asked only that question.             *)
 EXTENDS Integers, Sequences, FiniteSets, TLC, Json
-CONSTANTS Nets, MaxLen, Keep, Seed
+CONSTANTS Nets, MaxLen, Keep, Seed, Full
 
 Queries == {"np", "nu", "no", "huge", "dof", "pvv", "m0", "cic", "x", "r", "sx", "sl"}
 Algs == {"envelope", "gso", "svd", "cholesky"}
@@ -68,7 +68,7 @@ Step == /\ Len(hist) < MaxLen
              /\ (o[1] = "RMABS" => ~rmabs /\ ~refined)              \* content changes in one canonical order: remove, then refine
              /\ (o[1] = "REFINE" => ~refined)
              /\ (o[1] = "APR" => ~rmabs /\ ~refined)
-             /\ ((H(hist) + H(<<o>>) * 3 + Len(net) + Seed) % Keep = 0 \/ Len(hist) < 1)
+             /\ ((H(hist) + H(<<o>>) * 3 + Len(net) + Seed) % Keep = 0 \/ Len(hist) < Full)      \* histories up to length Full are all generated
              /\ hist' = Append(hist, o)
              /\ \E d \in BOOLEAN : \E g \in After(flags, o[1], o[2], IF m0type = "file" THEN "aposteriori" ELSE m0type, d) : flags' = g
              /\ m0type' = IF o[1] = "M0" THEN o[2] ELSE m0type
